@@ -487,8 +487,8 @@ class InClass:
         no_push_item = self.no_push_item
 
         if self.sort_expr is not None:
-            self.sort = self.sort_expr.eval(md)
-            sequence = self.sort_sequence(sequence, md)
+            sequence = self.sort_sequence(sequence, md,
+                                          self.sort_expr.eval(md))
         elif self.sort is not None:
             sequence = self.sort_sequence(sequence, md)
 
@@ -693,8 +693,8 @@ class InClass:
         no_push_item = self.no_push_item
 
         if self.sort_expr is not None:
-            self.sort = self.sort_expr.eval(md)
-            sequence = self.sort_sequence(sequence, md)
+            sequence = self.sort_sequence(sequence, md,
+                                          self.sort_expr.eval(md))
         elif self.sort is not None:
             sequence = self.sort_sequence(sequence, md)
 
@@ -776,7 +776,7 @@ class InClass:
 
         return result
 
-    def sort_sequence(self, sequence, md):
+    def sort_sequence(self, sequence, md, sort=None):
 
         # Modified with multiple sort fields by Ross Lazarus
         # April 7 2000 rossl@med.usyd.edu.au
@@ -786,7 +786,8 @@ class InClass:
         # Oleg Broytmann <phd@phd.pp.ru> 30 Mar 2001
         # eg <dtml-in "foo" sort="akey/nocase,anotherkey/cmp/desc">
 
-        sort = self.sort
+        if sort is None:
+            sort = self.sort
         need_sortfunc = sort.find('/') >= 0
 
         sortfields = sort.split(',')  # multi sort = key1,key2
